@@ -491,7 +491,7 @@ example : (repointLive (fun _ => true) 1 0 10 0 (Store.ofLists [(0, []), (1, [10
 end Repoint
 
 /-! ### `Parser.__collapse_root_models` (Model/Collapse.lean) -/
-namespace Collapse
+section Collapse
 open Dcg.Model.Collapse Dcg.Proofs.Collapse
 
 /-- a model as `Model/Collapse` sees it (the sorter's `Model` is open in this file too) -/
